@@ -211,6 +211,8 @@ def mon_c09(case, out):
                 if not first_tx:
                     continue          # later transmissions of the op are probes / reactions
                 first_tx = False
+            if name == "send!":
+                first_tx = False      # the attempt itself (refused by the socket layer); what follows is a probe
             if name == "srv":
                 addr = args[0].rsplit(":", 1)[0]
                 if args[1] == "up":
@@ -255,12 +257,14 @@ def mon_c05(case, out):
             continue
         for name, args in evs:
             if name == "tx":
-                txinfo.append(_kv(args))
+                d = _kv(args)
+                d["_tcp"] = "tcp" in args
+                txinfo.append(d)
         if t[0] == "reply":
             k = int(kv.get("tx", "0"))
             k = k if k >= 0 else len(txinfo) + k
             forged = any(x in kv for x in ("idadd", "qtadd", "qcadd")) or kv.get("qname") == "other" \
-                or kv.get("src") == "other" or (kv.get("qname") == "flipcase" and dns0x20)
+                or kv.get("src") == "other" or (kv.get("qname") == "flipcase" and dns0x20 and 0 <= k < len(txinfo) and not txinfo[k]["_tcp"])
             if kv.get("kind", "noerror") == "noerror" and int(kv.get("an", "1")) > 0:
                 mark = int(kv.get("mark", k))
                 replies.setdefault(mark, []).append(forged)
